@@ -29,7 +29,7 @@ def ask_tables(v):
         c = SOMEV(M(v, 'size'))
         T += [('supplied-size-not-lot-multiple', 'L(supplied size)', lambda e: e['fact'] == ('val', EQ(I(0), REM(c, F(CFG, 'size_increment'))), False)),
               ('supplied-size-above-remaining', 'L(supplied size)', lambda e: e['fact'] == ('is', ('rcall', 'checked_sub', (F(ASK, 'size'), c)), 'Err')),
-              ('supplied-size-below-1', 'L(supplied size)', lambda e: e['fact'] == ('val', LT(c, I(1)), True))]
+              ('supplied-size-below-1', 'L(supplied size)', lambda e: is_sign(e['fact'], c, 'zero'))]
     TA = [
         ('action-name-serialisation', 'D(unit enum serialises)', lambda e: ab(e, 'unwrap') and 'ContractAction' in e['key']),
         ('zero-amount-marker-transfer', 'D(I1: open ask has size > 0; supplied size >= 1; I2)', lambda e: ab(e, 'unwrap') and 'transfer amount must be > 0' in e['key']),
@@ -49,7 +49,7 @@ def bid_tables(v):
         c = SOMEV(M(v, 'size')); sizes.append(c)
         T += [('supplied-size-not-lot-multiple', 'L(supplied size)', lambda e: e['fact'] == ('val', EQ(I(0), REM(c, F(CFG, 'size_increment'))), False)),
               ('supplied-size-above-remaining', 'L(supplied size)', lambda e: e['fact'] == ('val', LT(bs.remB, c), True)),
-              ('supplied-size-below-1', 'L(supplied size)', lambda e: e['fact'] == ('val', LT(c, I(1)), True)),
+              ('supplied-size-below-1', 'L(supplied size)', lambda e: is_sign(e['fact'], c, 'zero')),
               ('supplied-size-quote-fractional', 'D(K, L-K: price*lot-multiple is whole)', lambda e: e['fact'] == ('val', EQ(('fract', MUL(bs.P, c)), I(0)), False))]
     def any_size(fn):
         return lambda e: any(fn(e, c) for c in sizes)
@@ -95,8 +95,7 @@ def whole_remainder(eng, v, side):
             BID = stored('bid', M(v, 'id')); bs = BidSpec(BID)
             has_fee = p.variant_of(bs.FEE) == 'Some'
             dom.assume_bid(BID, has_fee)
-            for f, _, _ in p.facts:      # L-uns: not (x > 0) => x == 0
-                if f[0] == 'val' and f[2] is False and f[1][0] == 'lt' and f[1][1] == I(0): dom.add_equality(f[1][2], I(0))
+            # L-uns (not (x > 0) => x == 0) is applied by the domain itself
             total = I(0)
             okto = True
             for t in trs:
